@@ -127,6 +127,7 @@ SHAPES = {
     "kw_enum_null": ("e = enum { null; }", None),
     "map_key_rec": ("r = record { a: i32; } deriving(eq)\ns = record { m: map<r, i32>; }", "compile:record-as-hash-key"),
     "generic_bare": ("r = record { a: list; }", "compile:generic-without-arguments"),
+    "inline_fn_long_name": ("i = interface +cpp { m(cb: (p0: map<string, list<set<i64>>>, p1: map<string, list<set<i64>>>, p2: map<string, list<set<i64>>>, p3: map<string, list<set<i64>>>, p4: map<string, list<set<i64>>>, p5: map<string, list<set<i64>>>, p6: map<string, list<set<i64>>>, p7: map<string, list<set<i64>>>, p8: map<string, list<set<i64>>>) -> bool); }", "crash:inline-function-file-name-too-long"),
     "fn_self": ("t = function (p: list<t?>);", "crash:self-referential-function-type"),
     "rec_self": ("r = record { a: r; }", "compile:type-dependency-cycle"),
     "rec_eq_noneq": ("s = record { a: i32; }\nr = record { f: s; } deriving(eq)", None),
@@ -213,6 +214,8 @@ def classify(ast) -> list[str]:
                 alltypes += [p["t"] for p in c["params"]]
         for t in alltypes:
             if "fn" in t:
+                if len(t["fn"]["name"]) > 200:
+                    keys.add("crash:inline-function-file-name-too-long")
                 inner = [q["t"] for q in t["fn"]["params"]] + ([t["fn"]["ret"]] if t["fn"]["ret"] else [])
                 if any("fn" in q for q in inner):
                     keys.add("compile:inline-function-inside-inline-function")
@@ -518,7 +521,8 @@ def run(ctx):
         failures = []      # (key, what, detail)
         # (a) documented outcome
         if r["kind"] in ("crash", "hang"):
-            k = "crash:" + (shape[0].split(":", 1)[1] if any(s.startswith("crash:") for s in shape) and (shape := [s for s in shape if s.startswith("crash:")]) else f"{r.get('exc')}@{r.get('site', r['stage'])}")
+            crash_shapes = [s for s in shape if s.startswith("crash:")]
+            k = crash_shapes[0] if crash_shapes else f"crash:{r.get('exc')}@{r.get('site', r['stage'])}"
             failures.append((k, "generation ended in an internal error instead of a documented diagnostic", {"outcome": {k2: r.get(k2) for k2 in ("kind", "stage", "exc", "msg", "site")}}))
         elif r["kind"] in ("raised", "diags"):
             if not set(r.get("cls", [])) <= DOCUMENTED:
